@@ -268,6 +268,7 @@ def make_recursion():
                 yield value
                 hist = (hist + [value])[-self.L:] if self.L else []
                 i += 1
+            treelog.info('closing after %d' % i)      # logged between the last item and exhaustion: part of the original call's output
     return Seq
 
 
@@ -330,9 +331,12 @@ def check_recursion(case, rec):
                     continue
                 if got != want:
                     raise Violation('wrong-sequence', f'step {si} {kind} k={k}: {got} != {want} (L={L} n={n})', where='recursion:' + kind)
-                logged = [m[1] for m in reclog._messages if m[0] == 'write' and isinstance(m[1], str) and m[1].startswith('item ')]
-                if logged != ['item %d' % i for i in range(len(want))]:
-                    raise Violation('log-replay', f'step {si} {kind}: log {logged} for {len(want)} items', where='recursion:log')
+                logged = [m[1] for m in reclog._messages if m[0] == 'write' and isinstance(m[1], str) and m[1].startswith(('item ', 'closing '))]
+                exhausted = n is not None and k > n      # the consumer asked for more than there is: the generator ran to its end
+                expected_log = ['item %d' % i for i in range(len(want))] + (['closing after %d' % n] if exhausted else [])
+                if logged != expected_log:
+                    raise Violation('log-replay', f'step {si} {kind} k={k} n={n}: log {logged}, the uncached iteration logs {expected_log}', where='recursion:log' + (':closing' if logged[:len(want)] == expected_log[:len(want)] else ''))
+                if exhausted: rec.label('exhausted-with-closing-log')
                 for index, hist in STATE['resumes']:
                     full = truth(L, n, case['a'], case['b'], index)
                     if kind != 'uncached' and hist != full[max(0, index - L):index]:
@@ -369,6 +373,7 @@ src = %r
 if src: sys.path.insert(0, src)
 from nutils import cache
 logpath, cachedir, delay, ident, work = sys.argv[1], sys.argv[2], float(sys.argv[3]), sys.argv[4], float(sys.argv[5])
+failmode = sys.argv[6] if len(sys.argv) > 6 else 'none'
 @cache.function(version=1)
 def slow(x):
     fd = os.open(logpath, os.O_WRONLY | os.O_APPEND | os.O_CREAT)
@@ -376,6 +381,14 @@ def slow(x):
     time.sleep(work)
     os.write(fd, ('exit %%s %%r\n' %% (ident, time.time())).encode())
     os.close(fd)
+    if failmode != 'none':
+        try:
+            os.close(os.open(logpath + '.failed', os.O_WRONLY | os.O_CREAT | os.O_EXCL))
+        except FileExistsError:
+            pass
+        else:      # the first execution fails (once): the entry stays unwritten and the next party has to compute it
+            if failmode == 'kill': os._exit(9)
+            raise RuntimeError('injected failure of the first execution')
     return [x, 'value', list(range(100))]
 slow.__module__ = 'c18child'
 time.sleep(delay)
@@ -387,8 +400,8 @@ print(json.dumps(v))
 
 @st.composite
 def concurrent_cases(draw, tier):
-    n = draw(st.integers(2, 5))
-    return dict(delays=[draw(st.sampled_from([0.0, 0.0, 0.01, 0.03, 0.06, 0.1])) for _ in range(n)], work=draw(st.sampled_from([0.05, 0.1, 0.2])))
+    n = draw(st.sampled_from([2, 3, 3, 4, 5]))
+    return dict(delays=[draw(st.sampled_from([0.0, 0.0, 0.01, 0.03, 0.06, 0.1])) for _ in range(n)], work=draw(st.sampled_from([0.05, 0.1, 0.2])), fail=draw(st.sampled_from(['none', 'raise', 'raise', 'kill'])))
 
 
 def check_concurrent(case, rec):
@@ -397,14 +410,20 @@ def check_concurrent(case, rec):
         logpath = os.path.join(d, 'log.txt')
         cachedir = os.path.join(d, 'cache')
         code = CHILD % os.environ.get('VERIF_NUTILS_SRC', '')
-        procs = [subprocess.Popen([sys.executable, '-c', code, logpath, cachedir, str(dl), str(i), str(case['work'])], stdout=subprocess.PIPE, stderr=subprocess.PIPE, text=True)
+        fail = case.get('fail', 'none')
+        procs = [subprocess.Popen([sys.executable, '-c', code, logpath, cachedir, str(dl), str(i), str(case['work']), fail], stdout=subprocess.PIPE, stderr=subprocess.PIPE, text=True)
                  for i, dl in enumerate(case['delays'])]
         outs = []
+        failed = 0
         for p in procs:
             o, e = p.communicate(timeout=120)
             if p.returncode != 0:
+                if fail != 'none' and (p.returncode == 9 or 'injected failure' in e):
+                    failed += 1; continue      # the party whose execution was made to fail
                 raise Violation('concurrent-caller-failed', f'rc={p.returncode}: {e[-500:]}', where='concurrent:failed')
             outs.append(json.loads(o.strip().splitlines()[-1]))
+        if fail != 'none' and failed != 1:
+            raise Violation('concurrent-caller-failed', f'{failed} callers failed, exactly the first execution was made to fail ({fail})', where='concurrent:failed-count')
         want = [7, 'value', list(range(100))]
         if any(o != want for o in outs):
             raise Violation('concurrent-wrong-value', f'{outs}', where='concurrent:value')
@@ -415,12 +434,12 @@ def check_concurrent(case, rec):
             if depth > 1:
                 raise Violation('concurrent-overlap', f'two executions overlap: {events}', where='concurrent:overlap')
         runs = sum(1 for ev in events if ev[0] == 'enter')
-        if runs != 1:
-            raise Violation('concurrent-executed-more-than-once', f'function executed {runs} times for one entry: {events}', where='concurrent:count')
+        if runs != (1 if fail == 'none' else 2):
+            raise Violation('concurrent-executed-more-than-once', f'function executed {runs} times for one entry (first execution {"failed: " + fail if fail != "none" else "succeeded"}): {events}', where='concurrent:count')
     finally:
         shutil.rmtree(d, ignore_errors=True)
     rec.nontrivial = True
-    rec.label('nproc=%d' % len(case['delays']))
+    rec.label('nproc=%d' % len(case['delays']), 'first-execution:' + case.get('fail', 'none'))
 
 
 RCHILD = r'''
@@ -566,7 +585,7 @@ def check_users(case, rec):
 
 SUBS = [Sub('prefix', prefix_cases, check_prefix, {'quick': 40, 'thorough': 400}, weight=4, timeout=300),
         Sub('recursion', recursion_cases, check_recursion, {'quick': 150, 'thorough': 3000}, weight=2),
-        Sub('concurrent', concurrent_cases, check_concurrent, {'quick': 2, 'thorough': 20}, weight=1, deterministic=False, shrink=False, timeout=300),
+        Sub('concurrent', concurrent_cases, check_concurrent, {'quick': 6, 'thorough': 40}, weight=1, deterministic=False, shrink=False, timeout=300),
         Sub('concurrent_recursion', concurrent_recursion_cases, check_concurrent_recursion, {'quick': 3, 'thorough': 30}, weight=1, deterministic=False, shrink=False, timeout=400),
         Sub('users', users_cases, check_users, {'quick': 60, 'thorough': 1000}, weight=1, timeout=120)]
 
